@@ -50,6 +50,23 @@ def make_monitor(ctx):
                         % ("(parent)" if e["pid"] == c.obs.parent_pid else "(layer subprocess)", e["cap"]),
                         "C13:left-installed")
         if not c.opts.get("buffer"):
+            # without --buffer nothing is captured: whatever a test writes (passing or not) is in the output of the run
+            # (judged for runs of one process: a layer subprocess's stderr is the report channel)
+            if len(c.obs.procs) == 1 and not c.obs.timeout and not c.opts.get("post_mortem"):
+                for win in truth.windows(parent):
+                    t = tests[win.tid]
+                    plist = {"setUp": t["setUp"], "body": t["body"], "tearDown": t["tearDown"]}
+                    for ph in win.phases:
+                        key_ = ph[0] if isinstance(ph, (list, tuple)) else ph
+                        part = plist.get(key_)
+                        if part is None and key_ == "sub" and ph[1] < len(t["subs"]):
+                            part = t["subs"][ph[1]]
+                        if part is None and key_ == "cleanup" and ph[1] < len(t["cleanups"]):
+                            part = t["cleanups"][ph[1]]
+                        for to_err, tok in (part or {}).get("writes", []):
+                            if "TOK%dK" % tok not in text:
+                                return ("without --buffer: output TOK%dK of test t%d (%s, phase %s) is missing from the output "
+                                        "of the run" % (tok, win.tid, t["kind"], key_), "C13:swallowed-without-buffer")
             return None
         if c.opts.get("post_mortem"):
             # (-D runs the tests through test.debug(): no per-test windows in the trace; these worlds have no failing
@@ -145,6 +162,11 @@ def gen_cases(ctx):
                 l["swapStreams"] = True
         o = worlds.gen_opts(rng, allow=("verbose", "repeat", "j"))
         o["buffer"] = rng.random() < 0.8
+        if i % 10 == 7:
+            # reports besides the console output (--xml) are no reason to capture anything: without --buffer the
+            # standard streams stay what they are and every test's output appears
+            o["buffer"] = False
+            o["xml"] = "xml-reports"
         if rng.random() < 0.35:
             # the usual terminal: a strict UTF-8 sys.stdout (and a sys.stderr that escapes) - the captured bytes need
             # not be decodable (tests write through .buffer)
